@@ -19,6 +19,11 @@ def run(ctx):
     ctx.uses('statistics', 'simulator', 'model', 'interfaces')
     ctx.trust('C01 R1.2 (higher priority first at equal time); C08 (listeners are notified once, in order)')
     sc = S.SimCtx(ctx.prog)
+    # the statistics learn about warm-up and replication end only by being notified: every subscriber of an event type is notified, also
+    # when an earlier one (un)subscribes during the notification (delivery loop over a copy: shared rule with C08 / C07)
+    from . import c08
+    ctx.uses('pubsub')
+    c08.r81(ctx)
     T.r111_subscriptions(ctx)
     T.r112_notify_dispatch(ctx)
     T.r113_model_registration(ctx)
